@@ -289,6 +289,82 @@ theorem powerIteration_gap (hB : IsDiagIn B b lam) (hd : Dominant lam D lam1 r) 
   rw [hratio] at h2
   exact ⟨h1, h2⟩
 
+theorem norm_nxt (B : E →L[ℝ] E) (v : E) (h : B v ≠ 0) : ‖nxt B v‖ = 1 := by
+  unfold nxt
+  rw [norm_smul, norm_inv, norm_norm, inv_mul_cancel₀ (norm_ne_zero_iff.2 h)]
+
+/-- the vector the loop returns: unit length, and its part outside the dominant eigenspace has shrunk by `r^(2(k+1))` -/
+theorem powerLoop_gap_vec (hB : IsDiagIn B b lam) (hd : Dominant lam D lam1 r) :
+    ∀ (k : Nat) (mu : Option ℝ) (v : E) (q : ℝ), 0 < head b D v → tail b D v ≤ q * head b D v →
+      0 < head b D (powerLoop (opsOf B) (k + 1) mu v).2 ∧
+      tail b D (powerLoop (opsOf B) (k + 1) mu v).2 ≤ (r * r) ^ (k + 1) * q * head b D (powerLoop (opsOf B) (k + 1) mu v).2 ∧
+      ‖(powerLoop (opsOf B) (k + 1) mu v).2‖ = 1 := by
+  intro k
+  induction k with
+  | zero =>
+    intro mu v q hc hq
+    have hBv := apply_ne_zero_of_head hB hd v hc
+    rw [powerLoop_succ_ne B 0 mu v hBv]
+    obtain ⟨h1, h2⟩ := inv_nxt hB hd v hc q hq
+    refine ⟨h1, ?_, norm_nxt B v hBv⟩
+    simpa [powerLoop] using h2
+  | succ k ih =>
+    intro mu v q hc hq
+    have hBv := apply_ne_zero_of_head hB hd v hc
+    rw [powerLoop_succ_ne B (k + 1) mu v hBv]
+    obtain ⟨h1, h2⟩ := inv_nxt hB hd v hc q hq
+    obtain ⟨a, b', c⟩ := ih (some (rq B v)) (nxt B v) (r * r * q) h1 h2
+    refine ⟨a, ?_, c⟩
+    have : (r * r) ^ (k + 1) * (r * r * q) = (r * r) ^ (k + 1 + 1) * q := by ring
+    rw [this] at b'
+    exact b'
+
+/-- what `power_iteration` returns, vector included -/
+theorem powerIteration_ok_vec (B : E →L[ℝ] E) (maxiter : Nat) (v0 : E) (mu : ℝ) (v : E)
+    (h : powerIteration (opsOf B) maxiter v0 = .ok (mu, v)) :
+    (powerLoop (opsOf B) maxiter none (‖v0‖⁻¹ • v0)).2 = v := by
+  unfold powerIteration at h
+  split at h
+  · cases h
+  · dsimp only at h
+    split at h
+    · rename_i m v' hp
+      simp only [Except.ok.injEq, Prod.mk.injEq] at h
+      have : (opsOf B).sdiv v0 ((opsOf B).norm v0) = ‖v0‖⁻¹ • v0 := rfl
+      rw [← this, hp]
+      exact h.2
+    · cases h
+
+/-- the returned vector under a spectral gap: unit length, squared distance from the dominant eigenspace `≤ r^(2(k+1))·C` -/
+theorem powerIteration_gap_vec (hB : IsDiagIn B b lam) (hd : Dominant lam D lam1 r) (v0 : E) (hc0 : 0 < head b D v0)
+    (k : Nat) (mu : ℝ) (v : E) (h : powerIteration (opsOf B) (k + 1) v0 = .ok (mu, v)) :
+    ‖v‖ = 1 ∧ tail b D v ≤ (r * r) ^ (k + 1) * (tail b D v0 / head b D v0) := by
+  have hv0 : v0 ≠ 0 := by
+    rintro rfl
+    rw [head_zero] at hc0
+    exact lt_irrefl _ hc0
+  have hvec := powerIteration_ok_vec B (k + 1) v0 mu v h
+  obtain ⟨hco, hratio⟩ := ratio_normalize (b := b) (D := D) v0 hv0
+  have hc : 0 < head b D (‖v0‖⁻¹ • v0) := by
+    rw [hco]
+    have : 0 < ‖v0‖⁻¹ := inv_pos.2 (norm_pos_iff.2 hv0)
+    exact mul_pos (mul_pos this this) hc0
+  obtain ⟨h1, h2, h3⟩ := powerLoop_gap_vec hB hd k none (‖v0‖⁻¹ • v0) _ hc (tail_le_ratio _ hc)
+  rw [hvec, hratio] at h2
+  rw [hvec] at h1 h3
+  refine ⟨h3, le_trans h2 ?_⟩
+  -- head v ≤ ‖v‖² = 1
+  have hle : head b D v ≤ 1 := by
+    have ht := tail_nonneg b D v
+    have : head b D v + tail b D v = ‖v‖ * ‖v‖ := by unfold tail; ring
+    rw [h3] at this
+    linarith
+  have hC : 0 ≤ (r * r) ^ (k + 1) * (tail b D v0 / head b D v0) :=
+    mul_nonneg (pow_nonneg (mul_self_nonneg r) _) (div_nonneg (tail_nonneg b D v0) (le_of_lt hc0))
+  calc (r * r) ^ (k + 1) * (tail b D v0 / head b D v0) * head b D v
+      ≤ (r * r) ^ (k + 1) * (tail b D v0 / head b D v0) * 1 := mul_le_mul_of_nonneg_left hle hC
+    _ = (r * r) ^ (k + 1) * (tail b D v0 / head b D v0) := mul_one _
+
 /-- hence the estimates converge to the dominant eigenvalue when `r < 1` -/
 theorem powerIteration_tendsto (hB : IsDiagIn B b lam) (hd : Dominant lam D lam1 r) (hr : r < 1) (v0 : E)
     (hc0 : 0 < head b D v0) (mu : ℕ → ℝ)
